@@ -221,7 +221,8 @@ EXTRA = {
     'C14': 'R14.3: every local pointer whose id is written as a reference attribute is added unconditionally to the collection its defining elements are emitted from. '
            'R14.4: start and end tag of a container element are written in one block with only non-throwing dump writers in between.',
     'C15': 'R15.1 also requires lossless operands (three known findings: fixInvalidChars in serialize). R15.4: Executor::hasToLog passes every internal message. '
-           'R15.5: suppression state reported by several workers is merged (add, else update).',
+           'R15.5: suppression state reported by several workers is merged (add, else update). R15.6: the three duplicate filters (per-file logger, executor, final logger) key on '
+           'ErrorMessage::toString with the same Settings members.',
     'C16': 'The protected set of a mutex is the union of the majority set and the fields some method modifies under the lock (contradiction rule); pointers to protected '
            'elements must not outlive the lock scope.',
     'C17': 'R17.4: function-local statics reachable from CppCheck::check are not initialised from parameters, locals or this. R17.5: the TU-relative Suppression::fileIndex is read '
